@@ -42,7 +42,9 @@ def check_C02(tier, seed):
         inst["tpolicies"] = [{"p": "", "d": "e2"}, {"p": PI.random_policy_text(rng, 40), "d": "n1"}]
     ntr = 8 if quick else 24
     ntrace = 150 if quick else 1200
-    for inst in insts[ntrace:]: inst["tpolicies"] = []
+    traced = {id(x) for x in universe.spread(insts, ntrace)}        # spread over every schema and family, not the first ntrace
+    for inst in insts:
+        if id(inst) not in traced: inst["tpolicies"] = []
     obs = observe(insts, wd, f"ir,batch:{ntr},chunk:3,trace", seed)
     # (1) real vs real: the row sequence under sampled policies equals the unbatched run
     npol = 0; seen = set(); nontrivial = 0
@@ -131,6 +133,9 @@ def check_C03(tier, seed):
     insts = [with_root_id(i) for i in universe.semantic_universe(tier, seed + 500)]
     ntrace = 400 if tier == "quick" else 4000
     for inst in insts: inst["tpolicies"] = [{"p": "", "d": "n1"}]
+    # the instances whose traces are exported and validated are spread over every schema and family; they are moved to the front
+    tr = universe.spread(insts, ntrace); trids = {id(x) for x in tr}
+    insts = universe.renumber(tr + [x for x in insts if id(x) not in trids])
     obs = observe(insts[:ntrace], wd, "ir,pulls,trace", seed) + (observe(insts[ntrace:], wd, "pulls", seed) if insts[ntrace:] else [])
     ji, jo = [], []
     for inst, o in executable(insts, obs):
@@ -362,7 +367,7 @@ def check_C14(tier, seed):
     alpha = ["filter", "output", "tag", "transform", "optional", "recurse", "fold", "bogus"]
     seqs = [((), "", False)] + [((a,), "", False) for a in alpha] + [((a, b), "", False) for a in alpha for b in alpha]
     docs = docfam.doc_instances(seqs, seed)
-    multi = [copy.deepcopy(i) for i in insts if len(i["args"]) >= 2][: (150 if tier == "quick" else 1500)]
+    multi = [copy.deepcopy(i) for i in universe.spread([i for i in insts if len(i["args"]) >= 2], 150 if tier == "quick" else 1500)]
     for i in multi: i["args"] = {"zz_b": G.I(1), "zz_a": G.I(2), "zz_c": G.S("x")}; i["rawargs"] = True
     # history: the same query text compiled against several schemas that differ only in a default value, each schema parsed for that instance alone
     # and dropped afterwards; processes see them in different orders, so anything remembered across compilations (by text, by address) shows
